@@ -71,6 +71,9 @@ def check_frame(out, rng, fr, sess, pending):
       return
   px, py, tx, ty = en.series(fr, use_cool)
   cond = en.conditioned(px, py)
+  if len(px) >= 3 and np.std(px) > 0 and en.own_ols(px, py)[2] <= 1e-18 * max(1.0, float(np.var(py))):
+    out.count(None)      # zero residual variance: no Student-t posterior to summarise (outside the claim)
+    return
   tol = lambda v: 1e-9 * max(1.0, abs(v))
   # order laws
   est, lo, up = rep['estimate'], rep['lower'], rep['upper']
